@@ -435,5 +435,6 @@ EXPLANATION = (
     "subscripts are [0]; queue and record-table mutators appear only in their owner methods. R4: _add_record reaches _expire on "
     "every path; every mixin override delegates to super() on every path; _expire is a while loop; mixins precede the base in "
     "the composed class. Does NOT decide that the deque insertion keeps time order.")
+TECHNIQUE = ('Python ast; path-sensitive product analysis of bookkeeping mutations vs returned flag; owner tables for queue/record mutators; MRO/`super()` delegation')
 ASSUMPTIONS = ["watchdog delivers events only for paths under the scheduled watch", "deque.remove raises when the element is absent"]
 FILES = [RB, "python/digital_rf/list_drf.py", "python/digital_rf/watchdog_drf.py"]
